@@ -181,14 +181,17 @@ static void c19_run(vf_case *c)
        row permutation, size query, singular return); incomplete factorization only on structurally nonsingular input (F14) */
     vf_rng kr; rng_seed(&kr, pseed, 79, 1); int drv = rng_bool(&kr, 0.3), drv_ilu = drv && rng_bool(&kr, 0.45) && sprank(&A) == A.n;
     if (drv_ilu) vf_note(c, "ilu");
+    /* second execution: pseudo-random bytes, or "stale mark" fills (every 32-/64-bit word a small integer, as left by an earlier call's marks) */
+    int junk2 = 256; { int jm = rng_int(&kr, 0, 9), jv = rng_int(&kr, 0, 6); if (jm == 0 || jm == 1) junk2 = 300 + jv; else if (jm == 2 || jm == 3) junk2 = 400 + jv; }
+    vf_tag(c, "junk2=%s", junk2 == 256 ? "random" : junk2 >= 400 ? "marks64" : "marks32");
     uint64_t mark = vf_ledger_mark();
     if (drv) run_driver_program(c, P, &A, pseed, 0x00, drv_ilu, &r1, 1); else
     run_program(c, P, &A, pseed, 0x00, &r1, 1);
     vf_check_ledger_since(c, "end of lifecycle (first execution)", (drv ? r1.forced == 4 : r1.forced == 2) ? "query" : r1.info > A.n ? "nomem" : "lifecycle", mark);
     if (vf_bad_frees() > 0) vf_viol(c, "badfree", "%ld free(s) of a pointer that is not a live allocation", vf_bad_frees());
     mark = vf_ledger_mark();
-    if (drv) run_driver_program(c, P, &A, pseed, 256, drv_ilu, &r2, 0); else
-    run_program(c, P, &A, pseed, 256, &r2, 0);
+    if (drv) run_driver_program(c, P, &A, pseed, junk2, drv_ilu, &r2, 0); else
+    run_program(c, P, &A, pseed, junk2, &r2, 0);
     vf_check_ledger_since(c, "end of lifecycle (second execution)", (drv ? r2.forced == 4 : r2.forced == 2) ? "query" : r2.info > A.n ? "nomem" : "lifecycle", mark);
     if (r1.info != r2.info || r1.h != r2.h) vf_viol(c, "output-depends-on-heap-junk", "the same lifecycle under two junk-fill patterns of fresh allocations gave different outputs (info %lld/%lld, hash %016llx/%016llx): dependence on uninitialised memory", (long long)r1.info, (long long)r2.info, (unsigned long long)r1.h, (unsigned long long)r2.h);
     c->counters[0] += r1.nops; c->nontrivial = r1.nops >= 1 || r1.info != 0; vf_sig_u64(c, mat_pattern_hash(&A)); vf_sig_u64(c, pseed);
